@@ -668,10 +668,11 @@ impl InstrFormat for MsgHooks {
         }
     }
 
-    fn write_instr(&self, f: &mut BinWriter, _: &dyn Emitter, instr: &RawInstr) -> WriteResult {
-        f.write_i16(instr.time as _)?;
-        f.write_u8(instr.opcode as _)?;
-        f.write_u8(instr.args_blob.len() as _)?;  // this version writes argsize rather than instr size
+    fn write_instr(&self, f: &mut BinWriter, emitter: &dyn Emitter, instr: &RawInstr) -> WriteResult {
+        f.write_i16(llir::fit_instr_field(emitter, "time", instr.time)?)?;
+        f.write_u8(llir::fit_instr_field(emitter, "opcode", instr.opcode)?)?;
+        // this version writes argsize rather than instr size
+        f.write_u8(llir::fit_instr_field(emitter, "argument size", instr.args_blob.len())?)?;
         f.write_all(&instr.args_blob)?;
         Ok(())
     }
